@@ -1323,6 +1323,9 @@ func (km *KeystoreManager) updateManagedKeystore(dbTransaction db.ReadTransactio
 }
 
 func (km *KeystoreManager) UpdateManagedKeystores(dbTransaction db.ReadTransaction, accountID string) {
+	// the keystore map is shared with the API goroutines, which read it under km.mu
+	km.mu.Lock()
+	defer km.mu.Unlock()
 	err := km.updateManagedKeystore(dbTransaction, accountID)
 	if err != nil {
 		logging.CPrint(logging.FATAL, "failed to update managed keystore", logging.LogFormat{"error": err})
